@@ -7,6 +7,7 @@ P=$1; shift
 cd /verif
 export GOFLAGS=-mod=mod GOPROXY=off
 [ -z "$(git -C /repo status --porcelain)" ] || { echo "/repo not clean"; exit 2; }
+trap 'git -C /repo checkout -- . ; git -C /repo clean -fdq' EXIT INT TERM PIPE
 git -C /repo apply "$P" || { echo "patch does not apply"; exit 2; }
 IDS=${*:-$(./bin/pintsa -list)}
 T=$(mktemp -d /tmp/tryh.XXXX)
